@@ -15,6 +15,7 @@ import (
 	"bufio"
 	"bytes"
 	"context"
+	"encoding/json"
 	"flag"
 	"fmt"
 	"net/http"
@@ -53,8 +54,8 @@ type observer struct {
 	cur  *snapshot
 }
 
-func (o *observer) ExtensionName() string                          { return "c07-observer-" + o.name }
-func (o *observer) Validate(graphql.ExecutableSchema) error        { return nil }
+func (o *observer) ExtensionName() string                   { return "c07-observer-" + o.name }
+func (o *observer) Validate(graphql.ExecutableSchema) error { return nil }
 func (o *observer) MutateOperationParameters(ctx context.Context, p *graphql.RawParams) *gqlerror.Error {
 	o.mu.Lock()
 	defer o.mu.Unlock()
@@ -121,6 +122,7 @@ func newServer(qcKind, apqKind string, seedAPQ map[string]string) *server {
 	s.apq = newRec[string](inner, func(v string) string { return v })
 	for k, v := range seedAPQ {
 		s.apq.ever[k] = v
+		s.apq.all[k] = append(s.apq.all[k], v)
 	}
 	s.h.Use(s.pre)
 	s.h.Use(extension.AutomaticPersistedQuery{Cache: s.apq})
@@ -284,6 +286,47 @@ func oracle(q *rq, hitKey, hitVal string, hit bool) response {
 	return newServer("none", "map", seed).serve(q)
 }
 
+// wireRq: a request as written into replay files
+type wireRq struct {
+	Kind   string      `json:"kind"`
+	Method string      `json:"method"`
+	RawURL string      `json:"rawURL"`
+	Hdrs   http.Header `json:"hdrs"`
+	Body   string      `json:"body"`
+	Enc    string      `json:"enc"`
+}
+
+type wireHist struct {
+	Cfg  string   `json:"cfg"` // "<query cache>/<apq cache>"
+	Reqs []wireRq `json:"reqs"`
+}
+
+// replayHistory serves the requests of a replay file on one new server, then asks the oracle
+func replayHistory(path string) {
+	b, err := os.ReadFile(path)
+	if err != nil {
+		panic(err)
+	}
+	var h wireHist
+	if err := json.Unmarshal(b, &h); err != nil {
+		panic(err)
+	}
+	cfg := strings.SplitN(h.Cfg+"/map", "/", 3)
+	srv := newServer(cfg[0], cfg[1], nil)
+	var recs []*record
+	for i, w := range h.Reqs {
+		q := &rq{kind: w.Kind, method: w.Method, rawURL: w.RawURL, hdrs: w.Hdrs, body: w.Body, enc: w.Enc, tags: []string{"replay"}}
+		if q.hdrs == nil {
+			q.hdrs = http.Header{}
+		}
+		recs = append(recs, srv.sequential(0, i, q, cfg[0]+"/"+cfg[1]))
+	}
+	fmt.Fprintf(out, "S\t0\t%s\treplay\n", h.Cfg)
+	for _, r := range recs {
+		emit(r, oracle(r.q, r.hitKey, r.hitVal, r.apqHit), "seq")
+	}
+}
+
 func b2i(b bool) int {
 	if b {
 		return 1
@@ -313,10 +356,11 @@ func emit(r *record, orc response, mode string) {
 	if extra == "" {
 		extra = "-"
 	}
-	// R sid idx mode cfg apqHit qcHit reused | enc | obs | verdict | extra | tags | request | response | oracle response
-	fmt.Fprintf(out, "R\t%d\t%d\t%s\t%s\t%d\t%d\t%d\t%s\t%s\t%s\t%s\t%s\t%s\t%s\t%s\n", r.sid, r.idx, mode, r.cfg, b2i(r.apqHit), b2i(r.qcHit), b2i(r.reused),
+	// R sid idx mode cfg apqHit qcHit reused | enc | obs | verdict | extra | tags | request | response | oracle response | request as JSON
+	js, _ := json.Marshal(wireRq{r.q.kind, r.q.method, r.q.rawURL, r.q.hdrs, r.q.body, r.q.enc})
+	fmt.Fprintf(out, "R\t%d\t%d\t%s\t%s\t%d\t%d\t%d\t%s\t%s\t%s\t%s\t%s\t%s\t%s\t%s\t%s\n", r.sid, r.idx, mode, r.cfg, b2i(r.apqHit), b2i(r.qcHit), b2i(r.reused),
 		r.q.enc, r.obs, verdict, strings.TrimSpace(extra), strings.Join(r.q.tags, ","),
-		tsv(fmt.Sprintf("%s ?%s %v %s", r.q.method, r.q.rawURL, r.q.hdrs, r.q.body)), tsv(r.resp.String()), tsv(orc.String()))
+		tsv(fmt.Sprintf("%s ?%s %v %s", r.q.method, r.q.rawURL, r.q.hdrs, r.q.body)), tsv(r.resp.String()), tsv(orc.String()), hx(string(js)))
 }
 
 // ---------------------------------------------------------------- definitions the model needs
@@ -392,8 +436,13 @@ func main() {
 	tier := flag.String("tier", "quick", "")
 	seed := flag.Uint64("seed", 1, "")
 	race := flag.Bool("conc-only", false, "only the concurrent batches (race build)")
+	hist := flag.String("hist", "", "replay the history of this JSON file instead of generating")
 	flag.Parse()
 	defer out.Flush()
+	if *hist != "" {
+		replayHistory(*hist)
+		return
+	}
 	for _, c := range catalogue {
 		texts[c.text] = true
 	}
